@@ -65,7 +65,7 @@ func fieldImpls(c *Ctx) []*fieldImpl {
 			}
 			f := &fieldImpl{pkg: path, name: n, named: named}
 			for i := 0; i < st.NumFields(); i++ {
-				if st.Field(i).Name() == "vals" {
+				if roleOf(st.Field(i)) == "vals" {
 					if sl, ok := st.Field(i).Type().Underlying().(*types.Slice); ok {
 						f.elem = sl.Elem()
 						f.vals = st.Field(i)
